@@ -96,6 +96,32 @@ def check_case(case):
                 res.add(viol('reachable_set_differs_from_complete', f'only COMPLETE: {only_c} only FAST: {only_f}',
                              data=dict(d0, only_complete=len(seen_c-seen), only_fast=len(seen-seen_c))))
             res.classes.append('compared_with_complete')
+            # every valid design vector (a row of the complete encoder's enumeration) is returned unchanged, with the
+            # listed activeness - compared when both encoders declare the same variables
+            meta_c = obs_c.des_vars
+            same_vars = [(m['name'], m['n_opts'], m['bounds']) for m in meta_c] == \
+                        [(m['name'], m['n_opts'], m['bounds']) for m in meta]
+            if same_vars and not res.violations and all(m['discrete'] for m in meta) and not spec.get('conns'):
+                # (without connection choices: which connection vector is 'the' valid one is the connection encoders' matter, C10)
+                try:
+                    out = obs_c.gp.get_all_discrete_x()
+                except Exception:  # noqa  (C04)
+                    out = None
+                if out is not None:
+                    import numpy as np
+                    X, A = np.asarray(out[0]), np.asarray(out[1])
+                    res.classes.append('valid_rows_decoded_by_fast')
+                    for r in range(min(X.shape[0], 200)):
+                        x = [int(v) for v in X[r]]
+                        recf = decode_one(obs, obs.gp, x)
+                        if recf['exc'] is not None:
+                            continue
+                        if [int(v) for v in recf['x_corr']] != x or list(recf['active']) != [bool(a) for a in A[r]]:
+                            res.add(viol('valid_vector_changed',
+                                         f'valid design vector {x} (active {[bool(a) for a in A[r]]}) is returned as '
+                                         f'{recf["x_corr"]} (active {recf["active"]}) by the fast encoder',
+                                         data=dict(d0, from_complete_enumeration=True)))
+                            break
     res.nontrivial = corrected and len(ref) >= 2
     res.classes.append('ref_empty' if not ref else 'ref_nonempty')
     res.sample = {'spec': spec, 'n_vectors': len(obs.records), 'n_ref_arch': len(ref),
